@@ -220,6 +220,15 @@ def run(ctx: Ctx, rep: Report) -> None:
             reason = param_owner_reason(ctx, fn, st.root)
         elif st.owner == "closure-read":
             reason = "attribute of a closure created by this call (function object naming), not read by operations" if st.path.endswith("__name__") else None
+            if reason is None:
+                # an object handed to the enclosing (public) function by its caller - a statistics / observer object of
+                # the library user - mutated by the closure: the same ownership argument as for a mutated parameter
+                enc_fn = fn.parent
+                while enc_fn is not None and st.root not in enc_fn.params:
+                    enc_fn = enc_fn.parent
+                if enc_fn is not None and not Defs(enc_fn).all_values(st.root):
+                    reason = param_owner_reason(ctx, enc_fn, st.root)
+                    deps = [] if reason else deps
         elif cls is not None and cls == client and fn.name in ("configure", "reconfigure") and st.path in ("self.config", "self.mpm"):
             reason = "explicit (re)configuration API: changes settings for subsequent requests by design (C18), not per-request data"
             deps = []
@@ -298,7 +307,9 @@ def run(ctx: Ctx, rep: Report) -> None:
 
     from .c13 import endpoint_factory
 
-    sender = ctx.inlined(default_sender(ctx))
+    from .c13 import sender_view
+
+    sender = sender_view(ctx)
     proto, _, ep_call = endpoint_factory(ctx, sender)
     inside_loop_or_fn = ep_call is not None  # the factory constructs a new protocol object on every call of the sender
     rep.check(proto is not None and inside_loop_or_fn, "C14-R3", sender.site(), "every call of the UDP sender creates its own endpoint with a freshly constructed protocol object", key=f"{sender.key}|shared-endpoint")
